@@ -369,7 +369,37 @@ def symbolic_loop_state(eng):
     }
 
 
-def legacy_step(eng, cfg, message, loop_state=None, expr_result=None):
+class VClock:
+    """Virtual clock (the property's quantifier: 'on a virtual clock'): time advances only while the loop waits on its
+    queue; all readings taken between two waits are equal; a wait that times out ends no earlier than its deadline."""
+
+    def __init__(self, eng, w=None):
+        self.eng, self.w, self.phase, self.reads = eng, w, 0, []
+        self.cur = self._new()
+
+    def _new(self):
+        t = z3.Const(f"vclock_{self.phase}", z3.RealSort())
+        self.eng.assume(t > 0)
+        return t
+
+    def read(self):
+        self.reads.append((self.phase, self.cur))
+        if self.w is not None:
+            self.w.emit("time", self.cur)
+        return SV(self.cur)
+
+    def waited(self, timeout=None, fired=False):
+        """the loop waited: the clock advanced (at least to the deadline when the wait timed out)"""
+        prev = self.cur
+        self.phase += 1
+        self.cur = self._new()
+        self.eng.assume(self.cur >= prev)
+        if timeout is not None:
+            tt = timeout.t if isinstance(timeout, SV) else z3.RealVal(timeout)
+            self.eng.assume(self.cur >= prev + tt if fired else self.cur <= prev + z3.If(tt >= 0, tt, 0))
+
+
+def legacy_step(eng, cfg, message, loop_state=None, expr_result=None, clock=None, timeout_fires=False, mode="step"):
     """Run ONE iteration of TrigInfo.trigger_watch#while0 from an arbitrary loop state with `message` arriving on the
     queue.  Returns (interp, world, trig_info, final locals, how the iteration ended)."""
     it = Interpreter(eng)
@@ -385,6 +415,32 @@ def legacy_step(eng, cfg, message, loop_state=None, expr_result=None):
         return Coro(th, "notify_q.get")
     it.method_tables[("Queue", "get")] = q_get
     mod.env.vars["asyncio"].attrs["wait_for"] = lambda i, aw, timeout=None: aw
+    if clock is not None:
+        clock.w = w
+        armed = {}
+
+        def q_get(i, q):  # noqa: F811
+            def th():
+                q_calls.append("get")
+                w.yield_point("notify_q.get", cancellable=False)
+                to = armed.pop("timeout", None)
+                clock.waited(to, fired=timeout_fires and to is not None)
+                if timeout_fires and to is not None:
+                    raise exc("TimeoutError")
+                return list(message)
+            return Coro(th, "notify_q.get")
+        it.method_tables[("Queue", "get")] = q_get
+
+        def wait_for(i, aw, timeout=None):
+            w.emit("wait_for", timeout)
+            armed["timeout"] = timeout
+            return aw
+        mod.env.vars["asyncio"].attrs["wait_for"] = wait_for
+        mod.env.vars["time"].attrs["monotonic"] = lambda i: clock.read()
+        mod.env.vars["dt_now"] = lambda i: clock.read()
+        as_t = lambda x: x.t if isinstance(x, SV) else z3.RealVal(x)
+        mod.env.vars["dt"] = PyModule("dt", {"timedelta": lambda i, seconds=0: SV(as_t(seconds))})
+        mod.env.vars["max"] = lambda i, a, b: SV(z3.If(as_t(a) >= as_t(b), as_t(a), as_t(b)))
     ident = SymPySet(cfg.get("ident", []))
     ident_any = SymPySet(cfg.get("ident_any", []))
 
@@ -424,6 +480,8 @@ def legacy_step(eng, cfg, message, loop_state=None, expr_result=None):
     def at_loop(interp, node, env):
         st = dict(symbolic_loop_state(eng))
         st.update(loop_state or {})
+        if mode == "start":
+            st = {}  # first iteration, from the locals the real prologue computed
         for kk, vv in st.items():
             env.vars[kk] = vv
         # find the frame env to write into
@@ -432,6 +490,7 @@ def legacy_step(eng, cfg, message, loop_state=None, expr_result=None):
             e = e.parent
         for kk, vv in st.items():
             e.vars[kk] = vv
+        result["locals_at_entry"] = dict(e.vars)
         try:
             interp.exec_block(node.body, env)
             result["end"] = "fallthrough"
@@ -529,7 +588,7 @@ def harnesses():  # noqa: F811
 # ----------------------------------------------------------------------------------------------------------
 # new subsystem: StateTriggerDecorator._cycle#while0
 # ----------------------------------------------------------------------------------------------------------
-def new_step(eng, cfg, message=None, fields=None, timeout_fires=False):
+def new_step(eng, cfg, message=None, fields=None, timeout_fires=False, vclock=None, mode="step"):
     """ONE iteration of StateTriggerDecorator._cycle#while0 from an arbitrary decorator state."""
     it = Interpreter(eng)
     it.obj_may_be_none = True
@@ -538,7 +597,12 @@ def new_step(eng, cfg, message=None, fields=None, timeout_fires=False):
     tmod, Fn, _ = trig_env(eng, it, w)
     clock = {"n": 0}
 
+    armed = {}
+
     def loop_time(i):
+        if vclock is not None:
+            vclock.w = w
+            return vclock.read()
         clock["n"] += 1
         t = z3.Const(f"loop_time_{clock['n']}", z3.RealSort())
         if clock["n"] > 1:
@@ -553,12 +617,20 @@ def new_step(eng, cfg, message=None, fields=None, timeout_fires=False):
         def th():
             q_calls.append("get")
             w.yield_point("notify_q.get", cancellable=False)
+            to = armed.pop("timeout", None)
+            if vclock is not None:
+                vclock.waited(to, fired=timeout_fires and to is not None)
             if timeout_fires:
                 raise exc("TimeoutError")
             return list(message)
         return Coro(th, "notify_q.get")
     it.method_tables[("Queue", "get")] = q_get
-    asyncio_stub_ = PyModule("asyncio", {"get_running_loop": lambda i: loop, "wait_for": lambda i, aw, timeout=None: (w.emit("wait_for", timeout), aw)[1],
+
+    def wait_for_(i, aw, timeout=None):
+        w.emit("wait_for", timeout)
+        armed["timeout"] = timeout
+        return aw
+    asyncio_stub_ = PyModule("asyncio", {"get_running_loop": lambda i: loop, "wait_for": wait_for_,
                                          "Queue": lambda i, n=0: SV(z3.Const("notify_q", QueueS)), "TimeoutError": __import__("pyvc.interp", fromlist=["EXC"]).EXC["TimeoutError"]})
     StateStub = Rec(fields={"notify_var_get": lambda i, names, nv: dict(nv), "set": lambda i, *a, **k: None}, name="State")
     mod = Module(it, DS_PY, stubs={"_LOGGER": logger_stub(), "TriggerDecorator": amod.env.vars["TriggerDecorator"],
@@ -599,9 +671,14 @@ def new_step(eng, cfg, message=None, fields=None, timeout_fires=False):
     result = {}
 
     def at_loop(interp, node, env):
+        if mode == "start":
+            result["end"] = "loop-entry"   # the prologue (initial check) is the step
+            raise PathEnd()
         for kk, vv in (fields or {}).items():
             dec._fields[kk] = vv
         result["before"] = dict(dec._fields)
+        # forget what the prologue (initial check) did: the step starts at the top of the loop
+        expr_state.clear(); dispatched.clear(); handled.clear(); q_calls.clear()
         try:
             interp.exec_block(node.body, env)
             result["end"] = "fallthrough"
